@@ -8,9 +8,11 @@ d=$(mktemp -d /tmp/mut-XXXXXX)
 git -C /repo worktree add -q --detach "$d/r" HEAD || exit 2
 if ! git -C "$d/r" apply "$patch"; then echo "patch does not apply"; git -C /repo worktree remove --force "$d/r"; rm -rf "$d"; exit 2; fi
 tag=mut$$
+# the check rewrites evidence/<ID>.json; keep the unchanged tree's file
+bak=$(mktemp); cp "/verif/evidence/$id.json" "$bak" 2>/dev/null
 VERIF_REPO="$d/r" VERIF_BUILD_TAG=$tag /verif/bin/check "$id" "$@"
 rc=$?
 git -C /repo worktree remove --force "$d/r"; rm -rf "$d" "/verif/.build/$id-$tag"
-git -C /verif checkout -q -- "evidence/$id.json" 2>/dev/null
+if [ -s "$bak" ]; then cp "$bak" "/verif/evidence/$id.json"; fi; rm -f "$bak"
 echo "mutant exit=$rc"
 exit $rc
